@@ -19,6 +19,7 @@ and an equation is ["eq", lhs, rhs] (residual lhs - rhs).
 import itertools
 
 NUM_ATTRS = ["start", "min", "max", "nominal"]
+NAME_POOL = ["d", "e", "r", "dd", "re", "rho", "drum", "red", "ed", "dred", "rr", "de", "er", "eder", "rd"]
 
 
 def iter_dims(levels):
@@ -226,6 +227,12 @@ def array_param_expr(rng, same):
 def gen_program(rng, stream="main"):
     feats = set()
     nid = itertools.count(1)
+
+    def nm(letter):
+        """identifier: often one that starts with d, e, r (the characters of `der(`), always unique by its number"""
+        if rng.random() < 0.5:
+            return "%s%d" % (rng.choice(NAME_POOL), next(nid))
+        return "%s%d" % (letter, next(nid))
     # ---- leaf classes ---------------------------------------------------------------------
     classes = []
     nleaf = rng.choice([0, 1, 1, 2])
@@ -236,7 +243,7 @@ def gen_program(rng, stream="main"):
             r = rng.random()
             dims = [] if r < 0.4 else [rng.randint(2, 3)]
             kind = "param" if rng.random() < 0.25 else "alg"
-            f = Field("f%d" % next(nid), dims, kind)
+            f = Field(nm("f"), dims, kind)
             if rng.random() < 0.5:
                 a = rng.choice(NUM_ATTRS)
                 f.cls_attrs[a] = ("each" if dims else "plain", rng.randint(-9, 9))
@@ -251,7 +258,7 @@ def gen_program(rng, stream="main"):
         m = Cls("D0")
         m.order = []
         leaf = rng.choice(classes)
-        f = Field("r%d" % next(nid), [rng.randint(2, 3)] if rng.random() < 0.5 else [], "alg")
+        f = Field(nm("r"), [rng.randint(2, 3)] if rng.random() < 0.5 else [], "alg")
         if rng.random() < 0.5:
             f.cls_attrs[rng.choice(NUM_ATTRS)] = ("each" if f.dims else "plain", rng.randint(-9, 9))
         m.fields.append(f)
@@ -285,7 +292,7 @@ def gen_program(rng, stream="main"):
             if lead_param and j == 0:
                 kind = "param"
             typ = "Real"
-            f = Field("x%d" % next(nid), list(dims), kind, typ, output=(kind == "alg" and rng.random() < 0.3))
+            f = Field(nm("x"), list(dims), kind, typ, output=(kind == "alg" and rng.random() < 0.3))
             if kind in ("param", "const"):
                 r2 = rng.random()
                 f.value = ("lit", nested(rng, dims, 1, 6)) if r2 < 0.6 or kind == "const" or (lead_param and j == 0) \
@@ -325,11 +332,11 @@ def gen_program(rng, stream="main"):
                 f.cls_attrs["fixed"] = ("each", True)
             top.order.append(("f", f))
     if rng.random() < 0.5:
-        top.order.append(("f", Field("z%d" % next(nid), [], "alg", output=rng.random() < 0.3)))
+        top.order.append(("f", Field(nm("z"), [], "alg", output=rng.random() < 0.3)))
     if rng.random() < 0.25:
         typ = rng.choice(["Integer", "Boolean"])
         dims = [rng.randint(2, 3)] if rng.random() < 0.7 else [2, 2]
-        f = Field("n%d" % next(nid), dims, "param" if rng.random() < 0.5 else "alg", typ)
+        f = Field(nm("n"), dims, "param" if rng.random() < 0.5 else "alg", typ)
         if typ == "Integer":
             if f.kind == "param":
                 f.value = ("fill", rng.randint(-9, 9)) if rng.random() < 0.5 else ("lit", nested(rng, dims))
@@ -341,7 +348,7 @@ def gen_program(rng, stream="main"):
         feats.add("typed-" + typ)
         top.order.append(("f", f))
     if rng.random() < 0.1:
-        f = Field("t%d" % next(nid), [2, rng.randint(1, 2), rng.randint(2, 3)], "param")
+        f = Field(nm("t"), [2, rng.randint(1, 2), rng.randint(2, 3)], "param")
         f.value = ("lit", nested(rng, f.dims, 1, 9))
         feats.add("3d")
         top.order.append(("f", f))
@@ -353,7 +360,7 @@ def gen_program(rng, stream="main"):
             if c in mids and c.inner_dims >= 2:
                 dims = []
             mods = {}
-            inst = "c%d" % next(nid)
+            inst = nm("c")
             if c in classes:
                 for f in c.fields:
                     tot = dims + f.dims
@@ -385,13 +392,13 @@ def gen_program(rng, stream="main"):
         c = Cls("K0")
         c.order = []
         if kindi == "class-literal":
-            f = Field("g%d" % next(nid), [rng.randint(2, 3)], "alg")
+            f = Field(nm("g"), [rng.randint(2, 3)], "alg")
             f.cls_attrs[rng.choice(NUM_ATTRS)] = ("plain", nested(rng, f.dims))
         elif kindi == "class-fill":
-            f = Field("g%d" % next(nid), [rng.randint(2, 3)], "param")
+            f = Field(nm("g"), [rng.randint(2, 3)], "param")
             f.value = ("lit", nested(rng, f.dims, 1, 6)) if rng.random() < 0.6 else ("fill", rng.randint(1, 5))
         else:
-            f = Field("g%d" % next(nid), [], "alg")
+            f = Field(nm("g"), [], "alg")
         c.fields.append(f)
         c.order.append(("f", f))
         classes.append(c)
@@ -400,9 +407,9 @@ def gen_program(rng, stream="main"):
             n = rng.randint(2, 3)
             m.order = [("c", ("b", c, [n], {f.name: {rng.choice(NUM_ATTRS): ("plain", nested(rng, [n]))}}))]
             mids.append(m)
-            top.order.append(("c", ("k%d" % next(nid), m, [rng.randint(2, 3)], {})))
+            top.order.append(("c", (nm("k"), m, [rng.randint(2, 3)], {})))
         else:
-            top.order.append(("c", ("k%d" % next(nid), c, [rng.randint(2, 3)], {})))
+            top.order.append(("c", (nm("k"), c, [rng.randint(2, 3)], {})))
         feats.add("inner-" + kindi)
 
     decls = flatten_decls(top)
@@ -586,4 +593,19 @@ def gen_equations(rng, decls, feats, initial=False):
                 x = rng.choice(same)
                 eqs.append({"text": "%s = delay(%s, %d.0);" % (y["name"], x["name"], rng.randint(1, 3)), "ast": None})
                 feats.add("delay-%dd" % len(iter_dims(y["levels"])))
+    # delays, preferably of matrices (both dimensions > 1): the expanded delay states pair with the entries of the
+    # delayed expression
+    if not initial and rng.random() < 0.35:
+        cands = [d for d in real if d["kind"] == "alg" and len(d["parts"]) == 1 and len(iter_dims(d["levels"])) <= 2]
+        c2 = [d for d in cands if len(iter_dims(d["levels"])) == 2]
+        if c2 and rng.random() < 0.75:
+            cands = c2
+        if cands:
+            y = rng.choice(cands)
+            same = [d for d in real if len(d["parts"]) == 1 and iter_dims(d["levels"]) == iter_dims(y["levels"])]
+            x, x2 = rng.choice(same), rng.choice(same)
+            arg = x["name"] if rng.random() < 0.6 else "(%s + %s)" % (x["name"], x2["name"]) if rng.random() < 0.5 \
+                else "(%s .* %s)" % (x["name"], x2["name"])
+            eqs.append({"text": "%s = delay(%s, %d.0);" % (y["name"], arg, rng.randint(1, 3)), "ast": None})
+            feats.add("delay-%dd" % len(iter_dims(y["levels"])))
     return eqs, states
